@@ -47,6 +47,7 @@ import (
 	"context"
 	"crypto/sha256"
 	"encoding/hex"
+	"encoding/json"
 	"fmt"
 	"os"
 	"os/exec"
@@ -545,6 +546,27 @@ scan:
 			continue
 		}
 		switch t.s {
+		case ":":
+			// "case x, y:" / "default:" / "Label:" end a clause head; what
+			// follows is a statement of its own
+			if depth == 0 && len(enclosing) == 0 {
+				for k := j - 1; k >= 0 && k > j-16; k-- {
+					u := raw[k]
+					if isSpecial(u, ";") || isSpecial(u, "{") || isSpecial(u, "}") || isSpecial(u, "{}") {
+						if k == j-2 && raw[j-1].cls == tokenizer.IdentifierTokenClass {
+							start = j + 1
+							firstSemi = -1
+							break scan
+						}
+						break
+					}
+					if u.cls == tokenizer.ReservedTokenClass && (u.s == "case" || u.s == "default") {
+						start = j + 1
+						firstSemi = -1
+						break scan
+					}
+				}
+			}
 		case ")", "]", "}":
 			depth++
 		case "{}":
@@ -773,23 +795,62 @@ func tokShape(t tok) string {
 	return t.s
 }
 
-// describeDiff names where two sources first differ as token streams: the
-// construct in the first source and the two token shapes.
+// describeDiff names where two sources differ as token streams: the construct
+// in the first source and the two token shapes. Differences that consist of a
+// statement separator present on one side only are passed over in favour of
+// the first difference of another kind (a moved comment changes where the
+// tokenizer inserts separators, which is rarely what breaks a program); when
+// there is no other difference the first separator difference is named.
+// equal is true only when the normalised streams are identical.
 func describeDiff(a, b string) (construct, shapes string, equal bool) {
 	ra, rb := rawTokens(a), rawTokens(b)
 	na, nb := normTokens(ra), normTokens(rb)
-	d := firstDiff(na, nb)
-	if d < 0 {
+	if firstDiff(na, nb) < 0 {
 		return "", "", true
+	}
+	sepI, sepJ := -1, -1
+	i, j := 0, 0
+	for i < len(na) && j < len(nb) {
+		if na[i].s == nb[j].s && na[i].cls == nb[j].cls {
+			i++
+			j++
+			continue
+		}
+		// a separator between "}" and "{" splits a statement in two (a
+		// literal in a header cut off from the body): that one matters
+		if isSpecial(na[i], ";") && !(i > 0 && i+1 < len(na) && isSpecial(na[i-1], "}") && isSpecial(na[i+1], "{")) {
+			if sepI < 0 {
+				sepI, sepJ = i, j
+			}
+			i++
+			continue
+		}
+		if isSpecial(nb[j], ";") && !(j > 0 && j+1 < len(nb) && isSpecial(nb[j-1], "}") && isSpecial(nb[j+1], "{")) {
+			if sepI < 0 {
+				sepI, sepJ = i, j
+			}
+			j++
+			continue
+		}
+		break
+	}
+	for i < len(na) && isSpecial(na[i], ";") {
+		i++
+	}
+	for j < len(nb) && isSpecial(nb[j], ";") {
+		j++
+	}
+	if i >= len(na) && j >= len(nb) && sepI >= 0 {
+		i, j = sepI, sepJ
 	}
 	sa, sb := "EOF", "EOF"
 	rawIdx := len(ra) - 1
-	if d < len(na) {
-		sa = tokShape(na[d])
-		rawIdx = na[d].raw
+	if i < len(na) {
+		sa = tokShape(na[i])
+		rawIdx = na[i].raw
 	}
-	if d < len(nb) {
-		sb = tokShape(nb[d])
+	if j < len(nb) {
+		sb = tokShape(nb[j])
 	}
 	return contextAt(ra, rawIdx), sa + "->" + sb, false
 }
@@ -1140,8 +1201,98 @@ var confirm struct {
 	n map[string]int
 }
 
-func fail(c Case, out *vkit.Outcome, relation, construct, observed, expected string) {
-	sig := relation + " " + construct
+// finding is one violated relation of one case.
+type finding struct {
+	relation string // format-error | not-compiling | behaviour | idempotence | comment-lost
+	where    string // canonical construct (see canonical)
+	observed string
+	expected string
+}
+
+func (f finding) sig() string { return f.relation + " " + f.where }
+
+// canonical reduces a located difference to the name of the construct region
+// that the root cause lives in. ctx is contextAt's description, shapes the two
+// differing token shapes ("a->b"), detail an error kind.
+func canonical(ctx, shapes, detail string) string {
+	if shapes == "-->--" {
+		return "unary-minus-twice"
+	}
+	header := strings.Contains(ctx, "-header") || strings.HasPrefix(ctx, "label")
+	switch {
+	case header && (strings.Contains(ctx, "composite-literal") || strings.HasPrefix(shapes, "{->")):
+		// "for _, v := range []int{1, 2} {", "switch []int{1}[0] {", ...
+		return "composite-literal-in-control-header"
+	case strings.Contains(ctx, "struct-type-body") || strings.Contains(ctx, "interface-type-body"):
+		return "struct-type-body " + detailOrShapes(shapes, detail)
+	case strings.HasSuffix(ctx, "composite-literal"):
+		return "composite-literal-body " + detailOrShapes(shapes, detail)
+	case strings.HasSuffix(ctx, "-group"):
+		return ctx[strings.LastIndex(ctx, ">")+1:] + " " + detailOrShapes(shapes, detail)
+	}
+	return strings.TrimSpace(ctx + " " + detailOrShapes(shapes, detail))
+}
+
+func detailOrShapes(shapes, detail string) string {
+	if detail != "" {
+		return "(" + detail + ")"
+	}
+	return shapes
+}
+
+var knownOnce sync.Once
+var knownSigs map[string]bool
+
+// known returns the signatures listed for C05 in the known-findings file vkit
+// uses (VERIF_KNOWN or /verif/known_findings.json). The oracle needs them only
+// to choose which of several violated relations of one case to report: one that
+// is not listed yet, so that the search continues behind recorded findings.
+func known() map[string]bool {
+	knownOnce.Do(func() {
+		knownSigs = map[string]bool{}
+		p := os.Getenv("VERIF_KNOWN")
+		if p == "" {
+			p = filepath.Join(vkit.Root(), "known_findings.json")
+		}
+		b, err := os.ReadFile(p)
+		if err != nil {
+			return
+		}
+		var kf struct {
+			Findings []struct {
+				Property string `json:"property"`
+				Sig      string `json:"sig"`
+			} `json:"findings"`
+		}
+		if json.Unmarshal(b, &kf) == nil {
+			for _, k := range kf.Findings {
+				if k.Property == "C05" {
+					knownSigs[k.Sig] = true
+				}
+			}
+		}
+	})
+	return knownSigs
+}
+
+// finish turns the violated relations of a case into the outcome: the first
+// one whose signature is not a recorded finding (else the first), confirmed
+// with the ego binary the first two times its signature is seen.
+func finish(c Case, out *vkit.Outcome, fs []finding) {
+	if len(fs) == 0 {
+		return
+	}
+	for _, f := range fs {
+		out.Labels = append(out.Labels, "violates:"+f.relation)
+	}
+	pick := fs[0]
+	for _, f := range fs {
+		if !known()[f.sig()] {
+			pick = f
+			break
+		}
+	}
+	sig := pick.sig()
 	note := ""
 	confirm.Lock()
 	if confirm.n == nil {
@@ -1150,8 +1301,8 @@ func fail(c Case, out *vkit.Outcome, relation, construct, observed, expected str
 	confirm.n[sig]++
 	first := confirm.n[sig] <= 2
 	confirm.Unlock()
-	if first && (c.Kind == "program" || c.Kind == "fragment" || relation != "behaviour") {
-		n, ok := cliConfirm(c, relation)
+	if first && !(pick.relation == "behaviour" && strings.HasPrefix(c.Kind, "corpus")) {
+		n, ok := cliConfirm(c, pick.relation)
 		note = "\n" + n
 		if !ok {
 			// the CLI disagrees with the in-process observation: that is a
@@ -1161,10 +1312,12 @@ func fail(c Case, out *vkit.Outcome, relation, construct, observed, expected str
 			return
 		}
 	}
-	out.Fail = &vkit.Failure{Sig: sig, Observed: observed + note, Expected: expected}
+	out.Fail = &vkit.Failure{Sig: sig, Observed: pick.observed + note, Expected: pick.expected}
 }
 
 const runLimitMin = 20 * time.Second
+
+var rePos = regexp.MustCompile(`line (\d+):(\d+)`)
 
 func oracle(c Case) vkit.Outcome {
 	var out vkit.Outcome
@@ -1180,7 +1333,6 @@ func oracle(c Case) vkit.Outcome {
 	for _, f := range feats {
 		out.Labels = append(out.Labels, "has:"+f)
 	}
-
 	if hungCount() >= maxHung {
 		out.Inconclusive = "too many abandoned executions in this process"
 		return out
@@ -1204,7 +1356,7 @@ func oracle(c Case) vkit.Outcome {
 		out.Skip = "unknown kind"
 		return out
 	}
-	if r0.CompileErr != "" || (r0.GoPanic != "" && (c.Kind == "corpus-test" || c.Kind == "corpus-file")) {
+	if r0.CompileErr != "" || (r0.GoPanic != "" && strings.HasPrefix(c.Kind, "corpus")) {
 		out.Skip = "compiler rejects original (" + c.Kind + ")"
 		return out
 	}
@@ -1225,33 +1377,50 @@ func oracle(c Case) vkit.Outcome {
 		}
 	}
 
+	var fs []finding
+	add := func(relation, where, observed, expected string) {
+		fs = append(fs, finding{relation, where, observed, expected})
+	}
+
 	// (1) formatting succeeds
 	f1, err := fmtSrc(c.Src, c.Kind)
 	if err != nil {
-		construct := "unlocated"
+		ctx := "unlocated"
 		msg := err.Error()
-		if m := regexp.MustCompile(`line (\d+):(\d+)`).FindStringSubmatch(msg); m != nil {
+		if m := rePos.FindStringSubmatch(msg); m != nil {
 			var l, col int
 			fmt.Sscan(m[1], &l)
 			fmt.Sscan(m[2], &col)
-			construct = contextAt(raw, tokenAt(c.Src, raw, l, col))
+			ctx = contextAt(raw, tokenAt(c.Src, raw, l, col))
 		}
-		what := normMsg(msg)
-		if i := strings.Index(what, ": "); i > 0 && strings.HasPrefix(what, "at ") {
-			// "at line N, missing parenthesis: tok" -> keep the kind of error
+		// "at line N:M, missing term: ;" -> "missing term at ;"
+		what := strings.TrimPrefix(reLine.ReplaceAllString(msg, "line N"), "at line N, ")
+		if i := strings.Index(what, ": "); i > 0 {
+			tokText := strings.TrimSpace(what[i+2:])
 			what = what[:i]
+			if tokText == ";" {
+				what += " at separator"
+			}
 		}
-		what = strings.TrimPrefix(what, "at line N, ")
-		fail(c, &out, "format-error", construct+" ("+what+")", "format error: "+msg, "formatting succeeds on a source the compiler accepts")
+		if strings.HasPrefix(msg, "go panic") {
+			what = "go panic " + msg[strings.LastIndex(msg, " at ")+1:]
+		}
+		where := canonical(ctx, "", what)
+		if from, to := locateParseFailure(c.Src, raw); from > 0 {
+			where = classifyLines(raw, from, to, what)
+		}
+		add("format-error", where, "format error: "+msg, "formatting succeeds on a source the compiler accepts")
+		finish(c, &out, fs)
 		return out
 	}
 
-	construct, shapes, sameToks := describeDiff(c.Src, f1)
+	ctx, shapes, sameToks := describeDiff(c.Src, f1)
 	if sameToks {
 		out.Labels = append(out.Labels, "tokens unchanged")
 	} else {
 		out.Labels = append(out.Labels, "tokens changed")
 	}
+	where := canonical(ctx, shapes, "")
 
 	// (2) the result compiles, (3) behaves the same
 	switch c.Kind {
@@ -1261,29 +1430,23 @@ func oracle(c Case) vkit.Outcome {
 			limit = l
 		}
 		r1 := execEgo(f1, mode, true, limit)
-		if r1.Hung {
-			fail(c, &out, "not-compiling", construct+" "+shapes+" (compiler or program does not return)", fmt.Sprintf("original compiled and ran in %v; formatted source did not return after %v and ignores interrupts\nformatted:\n%s", r0.Elapsed, limit, f1), "the formatted file compiles and behaves the same")
-			return out
-		}
-		if r1.CompileErr != "" || (r1.GoPanic != "" && r0.GoPanic == "" && r1.Stdout == "" && r0.Stdout != "") {
-			fail(c, &out, "not-compiling", construct+" "+shapes, "formatted source does not compile: "+r1.CompileErr+r1.GoPanic+"\nformatted:\n"+f1, "the formatted file compiles")
-			return out
-		}
-		if r1.TimedOut {
-			fail(c, &out, "behaviour", construct+" "+shapes+" (nontermination)", fmt.Sprintf("original finished in %v, formatted source still running after %v\nformatted:\n%s", r0.Elapsed, limit, f1), "same output and outcome")
-			return out
-		}
-		if a, b := outcomeOf(r0), outcomeOf(r1); a != b {
-			fail(c, &out, "behaviour", construct+" "+shapes, "original:\n"+clipS(a, 600)+"\nformatted run:\n"+clipS(b, 600)+"\nformatted source:\n"+f1, "same output and outcome")
-			return out
+		switch {
+		case r1.Hung:
+			add("not-compiling", where+" (does not return)", fmt.Sprintf("original compiled and ran in %v; formatted source did not return after %v and ignores interrupts\nformatted:\n%s", r0.Elapsed, limit, f1), "the formatted file compiles and behaves the same")
+		case r1.CompileErr != "":
+			add("not-compiling", where, "formatted source does not compile: "+r1.CompileErr+"\nformatted:\n"+f1, "the formatted file compiles")
+		case r1.TimedOut:
+			add("behaviour", where+" (nontermination)", fmt.Sprintf("original finished in %v, formatted source still running after %v\nformatted:\n%s", r0.Elapsed, limit, f1), "same output and outcome")
+		default:
+			if a, b := outcomeOf(r0), outcomeOf(r1); a != b {
+				add("behaviour", where, "original:\n"+clipS(a, 600)+"\nformatted run:\n"+clipS(b, 600)+"\nformatted source:\n"+f1, "same output and outcome")
+			}
 		}
 	case "corpus-test":
 		r1 := execEgo(f1, "test", false, 0)
 		if r1.CompileErr != "" || r1.GoPanic != "" || r1.Hung {
-			fail(c, &out, "not-compiling", construct+" "+shapes, "formatted source does not compile: "+r1.CompileErr+r1.GoPanic, "the formatted file compiles")
-			return out
-		}
-		if sameToks {
+			add("not-compiling", where, "formatted source does not compile: "+r1.CompileErr+r1.GoPanic, "the formatted file compiles")
+		} else if sameToks {
 			out.Labels = append(out.Labels, "corpus: same program (tokens identical)")
 		} else if !haveCLI() {
 			out.Inconclusive = "corpus-test: ego binary not available"
@@ -1292,7 +1455,7 @@ func oracle(c Case) vkit.Outcome {
 			a, b := cliTest(c.Src, base, true), cliTest(f1, base, true)
 			// a test that depends on time, network or scheduling may differ
 			// between two runs of the same file: only a difference that shows
-			// in three further pairs of runs counts
+			// again, in the same way, in three further pairs of runs counts
 			for i := 0; a != b && i < 3; i++ {
 				a2, b2 := cliTest(c.Src, base, false), cliTest(f1, base, false)
 				if a2 == b2 || a2 != a || b2 != b {
@@ -1304,8 +1467,7 @@ func oracle(c Case) vkit.Outcome {
 			case a == "TIMEOUT" || b == "TIMEOUT" || strings.HasPrefix(a, "CLI-ERROR") || strings.HasPrefix(b, "CLI-ERROR"):
 				out.Inconclusive = "corpus-test: cli run did not finish"
 			case a != b:
-				fail(c, &out, "behaviour", construct+" "+shapes, "`ego test` original:\n"+clipS(diffLines(a, b), 1200), "same result lines from `ego test`")
-				return out
+				add("behaviour", where, "`ego test` of original and of formatted file differ:\n"+clipS(diffLines(a, b), 1200), "same result lines from `ego test`")
 			default:
 				out.Labels = append(out.Labels, "corpus: compared with ego test")
 			}
@@ -1313,33 +1475,187 @@ func oracle(c Case) vkit.Outcome {
 	case "corpus-file":
 		r1 := execEgo(f1, "run", false, 0)
 		if r1.CompileErr != "" || r1.GoPanic != "" || r1.Hung {
-			fail(c, &out, "not-compiling", construct+" "+shapes, "formatted source does not compile: "+r1.CompileErr+r1.GoPanic, "the formatted file compiles")
-			return out
-		}
-		if sameToks {
+			add("not-compiling", where, "formatted source does not compile: "+r1.CompileErr+r1.GoPanic, "the formatted file compiles")
+		} else if sameToks {
 			out.Labels = append(out.Labels, "corpus: same program (tokens identical)")
 		} else {
-			out.Inconclusive = "corpus-file: tokens differ and file is not executed (" + construct + " " + shapes + ")"
+			out.Inconclusive = "corpus-file: tokens differ and file is not executed (" + where + ")"
 		}
 	}
 
 	// (4) idempotence
 	f2, err := fmtSrc(f1, c.Kind)
 	if err != nil {
-		fail(c, &out, "idempotence", "reformat-error "+construct+" "+shapes, "formatting the formatted text fails: "+err.Error()+"\nformatted:\n"+f1, "fmt(fmt(x)) == fmt(x)")
-		return out
-	}
-	if f2 != f1 {
-		fail(c, &out, "idempotence", describeTextDiff(f1, f2), "fmt(fmt(x)) != fmt(x):\n"+clipS(diffLines(f1, f2), 1200), "fmt(fmt(x)) == fmt(x)")
-		return out
+		add("idempotence", "reformat-error "+where, "formatting the formatted text fails: "+err.Error()+"\nformatted:\n"+f1, "fmt(fmt(x)) == fmt(x)")
+	} else if f2 != f1 {
+		add("idempotence", describeTextDiff(f1, f2), "fmt(fmt(x)) != fmt(x):\n"+clipS(diffLines(f1, f2), 1200), "fmt(fmt(x)) == fmt(x)")
 	}
 
 	// (5) comments
 	if missing := missingComments(comments, commentsOf(f1)); len(missing) > 0 {
-		fail(c, &out, "comment-lost", describeLostComment(c.Src, raw, missing[0]), fmt.Sprintf("%d comment(s) missing from the output, first: %q\nformatted:\n%s", len(missing), missing[0], f1), "every comment of the original appears in the output")
-		return out
+		add("comment-lost", describeLostComment(c.Src, raw, missing[0]), fmt.Sprintf("%d comment(s) missing from the output, first: %q\nformatted:\n%s", len(missing), missing[0], f1), "every comment of the original appears in the output")
 	}
+	finish(c, &out, fs)
 	return out
+}
+
+// locateParseFailure narrows a format (parse) error down to the smallest
+// bracket-balanced group of lines that the formatter's parser rejects on its
+// own, descending into blocks; parser errors are often reported far behind the
+// construct that derailed the parse. It returns the first and last line
+// (1-based) of that group, or 0, 0. Only the formatter's parser is consulted;
+// this is a naming aid for signatures.
+func locateParseFailure(src string, raw []tok) (int, int) {
+	lines := strings.Split(src, "\n")
+	// net bracket depth change per line, from tokens (strings and comments
+	// are not tokens, so their braces do not count)
+	delta := make([]int, len(lines)+2)
+	hasTok := make([]bool, len(lines)+2)
+	for _, t := range raw {
+		if t.line < 1 || t.line > len(lines) || t.cls == tokenizer.EndOfTokensClass {
+			continue
+		}
+		if !isSpecial(t, ";") {
+			hasTok[t.line] = true
+		}
+		if t.cls != tokenizer.SpecialTokenClass {
+			continue
+		}
+		switch t.s {
+		case "{", "(", "[":
+			delta[t.line]++
+		case "}", ")", "]":
+			delta[t.line]--
+		}
+	}
+	fails := func(from, to int) bool { // lines from..to inclusive, 1-based
+		text := strings.Join(lines[from-1:to], "\n")
+		_, err := fmtSrc(text, "fragment")
+		return err != nil
+	}
+	lo, hi := 1, len(lines)
+	if !fails(lo, hi) {
+		return 0, 0
+	}
+	for depthGuard := 0; depthGuard < 12; depthGuard++ {
+		// split lo..hi into balanced groups
+		type group struct{ from, to int }
+		var groups []group
+		d, start := 0, lo
+		for l := lo; l <= hi; l++ {
+			d += delta[l]
+			if d <= 0 {
+				groups = append(groups, group{start, l})
+				start, d = l+1, 0
+			}
+		}
+		if start <= hi {
+			groups = append(groups, group{start, hi})
+		}
+		// a group that ends in "} else ..." / "} catch" continues in the next
+		var merged []group
+		for _, g := range groups {
+			first := strings.TrimSpace(lines[g.from-1])
+			if len(merged) > 0 && (strings.HasPrefix(first, "} else") || strings.HasPrefix(first, "} catch") || strings.HasPrefix(first, "}(") || strings.HasPrefix(first, "})")) {
+				merged[len(merged)-1].to = g.to
+				continue
+			}
+			merged = append(merged, g)
+		}
+		found := false
+		for _, g := range merged {
+			if g.from == lo && g.to == hi {
+				continue
+			}
+			any := false
+			for l := g.from; l <= g.to; l++ {
+				any = any || hasTok[l]
+			}
+			if any && fails(g.from, g.to) {
+				lo, hi = g.from, g.to
+				found = true
+				break
+			}
+		}
+		if !found {
+			// no proper part fails on its own: look inside the block
+			if hi-lo >= 2 && delta[lo] > 0 && fails(lo+1, hi-1) {
+				lo, hi = lo+1, hi-1
+				continue
+			}
+			break
+		}
+	}
+	return lo, hi
+}
+
+// classifyLines names the construct of a group of lines that fails to parse.
+func classifyLines(raw []tok, from, to int, detail string) string {
+	first, last := -1, -1
+	for i, t := range raw {
+		if t.line >= from && t.line <= to && t.cls != tokenizer.EndOfTokensClass {
+			if first < 0 {
+				first = i
+			}
+			last = i
+		}
+	}
+	if first < 0 {
+		return "unlocated (" + detail + ")"
+	}
+	for first < last && isSpecial(raw[first], ";") {
+		first++
+	}
+	// a label in front of a loop
+	if raw[first].cls == tokenizer.IdentifierTokenClass && first+1 <= last && isSpecial(raw[first+1], ":") {
+		first += 2
+		for first < last && isSpecial(raw[first], ";") {
+			first++
+		}
+	}
+	kind := stmtKind(raw, first, first)
+	if strings.HasSuffix(kind, "-header") {
+		// is there a composite literal before the body?
+		depth := 0
+		for k := first + 1; k <= last; k++ {
+			t := raw[k]
+			if t.cls != tokenizer.SpecialTokenClass {
+				continue
+			}
+			switch t.s {
+			case "(", "[":
+				depth++
+			case ")", "]":
+				depth--
+			case "{}":
+				if braceIsComposite(raw, k, depth == 0) {
+					return "composite-literal-in-control-header"
+				}
+			case "{":
+				if braceIsComposite(raw, k, depth == 0) {
+					return "composite-literal-in-control-header"
+				}
+				if depth == 0 {
+					return kind + " (" + detail + ")"
+				}
+			}
+		}
+		return kind + " (" + detail + ")"
+	}
+	if kind == "type" {
+		for k := first; k <= last; k++ {
+			if raw[k].s == "struct" || raw[k].s == "interface" {
+				return "struct-type-body (" + detail + ")"
+			}
+		}
+	}
+	// a composite literal that spans lines
+	for k := first; k <= last; k++ {
+		if isSpecial(raw[k], "{") && braceIsComposite(raw, k, false) && k+1 <= last && raw[k+1].line > raw[k].line {
+			return "composite-literal-body (" + detail + ")"
+		}
+	}
+	return kind + " (" + detail + ")"
 }
 
 // tokenAt finds the raw token at or after (line, col).
@@ -1380,40 +1696,56 @@ func diffLines(a, b string) string {
 
 // describeTextDiff names how fmt(fmt(x)) differs from fmt(x).
 func describeTextDiff(f1, f2 string) string {
-	if construct, shapes, same := describeDiff(f1, f2); !same {
-		return "tokens " + construct + " " + shapes
-	}
+	ctx, shapes, same := describeDiff(f1, f2)
 	c1, c2 := commentsOf(f1), commentsOf(f2)
 	if strings.Join(c1, "\x00") != strings.Join(c2, "\x00") {
 		return "comment text changes"
 	}
-	// same tokens, same comments up to white space: layout only
 	la, lb := strings.Split(f1, "\n"), strings.Split(f2, "\n")
-	if len(la) != len(lb) {
-		// which kind of line appears or disappears
-		i := 0
-		for i < len(la) && i < len(lb) && la[i] == lb[i] {
-			i++
-		}
-		x, y := "", ""
-		if i < len(la) {
-			x = strings.TrimSpace(la[i])
-		}
-		if i < len(lb) {
-			y = strings.TrimSpace(lb[i])
-		}
-		return "line count changes at " + lineShape(x) + " / " + lineShape(y)
+	i := 0
+	for i < len(la) && i < len(lb) && la[i] == lb[i] {
+		i++
 	}
-	for i := range la {
-		if la[i] != lb[i] {
-			x, y := strings.TrimSpace(la[i]), strings.TrimSpace(lb[i])
-			if x == y {
-				return "indentation of " + lineShape(x)
-			}
-			return "layout of " + lineShape(x) + " / " + lineShape(y)
-		}
+	x, y := "", ""
+	if i < len(la) {
+		x = la[i]
 	}
-	return "layout"
+	if i < len(lb) {
+		y = lb[i]
+	}
+	tx, ty := strings.TrimSpace(x), strings.TrimSpace(y)
+	codeOf := func(l string) string {
+		if k := strings.Index(l, "//"); k >= 0 {
+			l = l[:k]
+		}
+		if k := strings.Index(l, "/*"); k >= 0 {
+			l = l[:k]
+		}
+		return strings.TrimSpace(l)
+	}
+	switch {
+	case tx == ty && tx != "":
+		// same text, other indentation
+		before := strings.Join(la[:i], "\n")
+		if strings.HasPrefix(tx, "*") || strings.HasPrefix(tx, "/*") || strings.HasPrefix(tx, "//") || strings.Count(before, "/*") > strings.Count(before, "*/") {
+			return "comment-indentation"
+		}
+		return "indentation of " + lineShape(tx)
+	case tx == "" && x != "":
+		// a line of white space only that is gone on the second pass
+		return "whitespace-only-line"
+	case (strings.Contains(tx, "//") || strings.Contains(tx, "/*")) && codeOf(tx) != "" && codeOf(tx) == ty:
+		// "code  // comment" becomes "code" and the comment moves
+		return "trailing-comment-moves"
+	case (strings.Contains(ty, "//") || strings.Contains(ty, "/*")) && codeOf(ty) != "" && codeOf(ty) == tx:
+		return "trailing-comment-moves"
+	case tx == "" || ty == "":
+		return "blank-lines"
+	}
+	if !same {
+		return "tokens " + canonical(ctx, shapes, "")
+	}
+	return "layout " + lineShape(tx) + " / " + lineShape(ty)
 }
 
 func lineShape(l string) string {
